@@ -1,6 +1,11 @@
 -- REGENERATED from /repo by tools/extract on every run. Do not edit.
 namespace CaddyModel.Gen
 
+/-- the route patterns registered by the admin.api modules of the tree: every `AdminRoute{Pattern: …}` composite
+    literal outside admin.go, tests and verif hooks, as (file, pattern); an identifier is resolved to the string
+    constant of its package -/
+def moduleAdminRoutePatterns : List (String × String) := [("caddyconfig/load.go", "/adapt"), ("caddyconfig/load.go", "/load"), ("modules/caddyhttp/reverseproxy/admin.go", "/reverse_proxy/upstreams"), ("modules/caddypki/adminapi.go", "/pki/"), ("modules/metrics/adminmetrics.go", "/metrics")]
+
 /-- the gates in the order `adminHandler.serveHTTP` (admin.go) reaches them, helpers of the same file inlined:
     remote ACL, websocket refusal, host check, origin check, then the mux -/
 def adminGateSequence : List String := ["acl", "websocket", "host", "origin", "mux"]
